@@ -89,10 +89,11 @@ namespace
 enum Profile : int { kTogether = 0, kWaves = 1, kExitRace = 2, kHandover = 3 };
 // per thread: op[0] = {kind 0, obj = start delay (yields by main before spawning), a = probe hash, b = number of GetThreadID calls,
 //                      c = hold yields}
-enum Probe : int { pWrap = 0, pReusedId, pClaimDuringExit, pOversubscribedWait, pFinalRound, pHbChecks, pEarlyClaim, pProbes };
+enum Probe : int { pWrap = 0, pReusedId, pClaimDuringExit, pOversubscribedWait, pFinalRound, pHbChecks, pEarlyClaim, pHeartBeatFirst, pProbes };
 const char *const kProbeNames[] = {"probe_wrapped_around_table", "id_reused_by_later_thread",
                                    "claim_while_previous_owner_in_exit_cleanup", "claimant_waited_for_an_exit", "final_full_capacity_rounds",
-                                   "heartbeat_checks", "runs_with_an_id_claimed_by_main_before_main", nullptr};
+                                   "heartbeat_checks", "runs_with_an_id_claimed_by_main_before_main",
+                                   "threads_whose_first_call_is_GetHeartBeat", nullptr};
 
 std::string g_prop;
 bool tagged(const char *tags) { return g_prop.empty() || strstr(tags, g_prop.c_str()) != nullptr; }
@@ -213,14 +214,26 @@ void worker_fn(void *p)
   if ((static_cast<size_t>(o.a) % kN) + 1 >= kN) dsim::probe(pWrap);
   size_t first = 0;
   const int calls = static_cast<int>(o.b < 1 ? 1 : o.b);
+  // half of the threads (a function of the arguments, no extra random draw) enter the IDManager through GetHeartBeat: the ID is then
+  // claimed inside that call and the thread-local objects behind the two functions are created in the opposite order
+  const bool hb_first = ((o.a + o.c) & 1) != 0;
+  std::weak_ptr<size_t> hb;
+  if (hb_first) {
+    dsim::probe(pHeartBeatFirst);
+    dsim::op_begin("GetHeartBeat (first call of the thread)", 0);
+    hb = IDManager::GetHeartBeat();
+    dsim::op_end();
+  }
   for (int c = 0; c < calls; ++c) {
     dsim::set_pos(c + 1);
     const size_t id = get_id_checked(c, first);
     if (c == 0) {
       first = id;
-      dsim::op_begin("GetHeartBeat", 0);
-      std::weak_ptr<size_t> hb = IDManager::GetHeartBeat();
-      dsim::op_end();
+      if (!hb_first) {
+        dsim::op_begin("GetHeartBeat", 0);
+        hb = IDManager::GetHeartBeat();
+        dsim::op_end();
+      }
       S->hbs.push_back(HbRec{hb, dsim::self(), id});
     }
     check_heartbeats_alive("between GetThreadID calls");
